@@ -582,7 +582,7 @@ func (w *watch) watch(fsw *fsnotify.Watcher, m *sync.Mutex, refresh func() error
 				m.Unlock()
 				return
 			}
-			if event.Op == fsnotify.Remove && w.tracked[event.Name] {
+			if (event.Op == fsnotify.Remove || event.Op == fsnotify.Rename) && w.tracked[event.Name] {
 				w.update(dirErrors, event.Name)
 			} else {
 				w.update(dirErrors)
@@ -620,6 +620,9 @@ func (w *watch) update(dirErrors map[string]error, removed ...string) bool {
 	// meantime gets watched again right below, otherwise changes to it
 	// (and its next removal) would go unnoticed.
 	for _, dir = range removed {
+		// Drop the stale watch of a renamed away directory, otherwise
+		// fsnotify would not set up a new one properly for its path.
+		_ = w.watcher.Remove(dir)
 		w.tracked[dir] = false
 		dirErrors[dir] = errors.New("directory removed")
 		update = true
